@@ -62,7 +62,16 @@ plus a deviation `δ`. With `D = permutedDenominator ws ps` and, for `ws·2M = h
 
     D·P' = (A₀·2^s)·2^h + (D·δ − A_(2M)),      |A₀|, |A_(2M)| < 2·(2^ps − 1)·2^(ws·ps) ≤ 2·(2^ws + 1)·D,
 
-`A_s = coefA … s` the explicit alternating sums of the rotated word (Proofs/Permuted.lean). -/
+`A_s = coefA … s` the explicit alternating sums of the rotated word (Proofs/Permuted.lean).
+
+REGION. The identity holds for EVERY odd `ps` and every `ws` — there is no hypothesis `ps < ws`. The
+implementation calls `CheckFraction(n, D)` only for `ws ∈ {8, 16, 32, 64}`, `3 ≤ ps < ws`, `ps` odd,
+`bitLength D ≤ bitLength n / 8` (`C05PermutedRegion.permuted_tried_region`, `C05Pre.permuted_enum`). The
+property's family (word size in the default list, implied denominator `≤ bitlen/10`) also contains
+`ps ≥ ws` — with 8-bit limbs `ps = 9, 11, 13, 15, 31` — for which this theorem says `D` would work but
+the check never tries it: known finding D25 (`C05PermutedRegion.d25_witness`; real code: the 1024-bit
+replay input is factored by no check). The harness gates planted keys only for `3 ≤ ps < ws`, `ps` odd,
+`bitLength D ≤ bitlen/10`; `ps ≥ ws` keys are statistics + the fixed D25 probe. -/
 theorem permuted_is_fraction (W ps ws M : Nat) (δ : Int) (hps : 1 ≤ ps) (hodd : ps % 2 = 1)
     (hW : W < 2 ^ ps - 1) :
     (∀ h s, ws * (2 * M) = h + s →
@@ -84,8 +93,9 @@ theorem permuted_is_fraction (W ps ws M : Nat) (δ : Int) (hps : 1 ≤ ps) (hodd
 /-- **Permuted limbs ⇒ factored, given the oracle.** `p` = swapped repetition + `δ`,
 `ws·2M = bitLength (p·q)/2 + s`, `q` an odd prime not dividing `D`: every reduced basis that
 contains ± the planted row for `d = D`, `a = A₀·2^s`, `c = D·δ − A_(2M)` makes `CheckFraction(n, D)`
-— a call `CheckPermutedBitPatterns` makes whenever `bitLength D ≤ bitLength n / 8`
-(`C05Pre.permuted_enum`) — return both primes. -/
+— a call `CheckPermutedBitPatterns` makes whenever `ws ∈ {8, 16, 32, 64}`, `3 ≤ ps < ws` and
+`bitLength D ≤ bitLength n / 8` (`C05Pre.permuted_enum`, `C05PermutedRegion.permuted_tried_region`; for
+`ps ≥ ws` the theorem holds but the check never makes the call: known finding D25) — return both primes. -/
 theorem permuted_sandwich {p q : Nat} (hp : p.Prime) (hq : q.Prime) (hpq : p ≠ q) (hq2 : q ≠ 2)
     (W ps ws M s : Nat) (δ : Int) (hps : 1 ≤ ps) (hodd : ps % 2 = 1) (hW : W < 2 ^ ps - 1)
     (hP : (p : Int) = (swapLimbs ws M (periodicTop W ps (ws * (2 * M))) : Int) + δ)
